@@ -1,7 +1,12 @@
 import AcraModel.Props.C12
 import AcraModel.Props.C03
 import AcraModel.Props.C10
+<<<<<<< HEAD
 import AcraModel.Sql.MysqlComment
+=======
+import AcraModel.Props.C13
+import AcraModel.Sql.TokenizerLoop
+>>>>>>> wt-btok
 /-!
 # C14 — no input can crash a handler or make it consume unbounded resources
 
@@ -10,8 +15,10 @@ proved in the property files of the subsystems and restated here so that C14's o
 explicit). Termination of every modelled loop is a definitional obligation: the models are total
 Lean functions by structural or well-founded recursion whose measure decreases on every path
 (`scan`, `processStructs`, `processBlocks` in `Envelope/Detector.lean`; the readers in `Wire/`).
-Decoders without a model (SQL grammars, pg_query, YAML, ASN.1) are explored by the harness only –
-that part of C14 is exploration, not proof, and the evidence says so.
+The SQL TOKENIZER of both dialects (`sqlparser/token.go`: `Scan`, `Lex` and every scanner) is modelled in
+`Sql/Tokenizer*.lean`; its theorems are the last section of this file. Decoders without a model (the SQL GRAMMAR,
+pg_query, YAML, ASN.1) are explored by the harness only – that part of C14 is exploration, not proof, and the evidence
+says so.
 -/
 namespace AcraModel.Props.C14
 open AcraModel AcraModel.Wire.LenEnc AcraModel.Envelope
@@ -123,5 +130,231 @@ theorem mysql_row_no_panic : type_of% @C12.mysql_row_no_panic := @C12.mysql_row_
 theorem mysql_coldef_no_panic : type_of% @C12.coldef_no_panic := @C12.coldef_no_panic
 /-- MySQL COM_STMT_EXECUTE parameter reader/rewriter never panics. -/
 theorem mysql_execute_no_panic : type_of% @C12.mysql_execute_no_panic := @C12.mysql_execute_no_panic
+
+
+/-! ## the SQL tokenizer (`sqlparser/token.go`; model `Sql/Tokenizer.lean`, `Sql/TokenizerLoop.lean`)
+
+The state of a tokenizer is the list of its live `Tokenizer` values (`[f]`, or `f` with the nested tokenizer of a
+`/*! … */` comment behind it); `mu` counts the bytes they can still consume (+1 each). -/
+section Tokenizer
+open AcraModel.Sql.Tokenizer AcraModel.Generated.SqlToken
+
+/-! ### facts about the regenerated tables -/
+
+/-- `eofChar` is no byte value and belongs to no character class; the tables cover exactly `0 … eofChar` – what lets
+the model represent `lastChar == eofChar` as the empty suffix. -/
+theorem fact_tok_eof :
+    eofChar = 256 ∧ digitVals.length = 257 ∧ (∀ n ∈ letterChars ++ digitChars ++ blankChars ++ simpleTokens, n < 256) := by
+  decide +kernel
+
+/-- `digitVal(eofChar)` is 16 (no digit in any base), every `isDigit` character has a decimal value, and
+`ExtractMysqlComment` slices at `[3 : len-2]` and handles the comment that holds nothing but version digits. -/
+theorem fact_tok_tables : TableFacts := tableFacts
+
+/-- `isLetter` is exactly `A–Z a–z _ @`, `isDigit` exactly `0–9`, blanks are TAB LF CR SPACE -/
+theorem fact_tok_classes :
+    letterChars = 64 :: (List.range 26).map (· + 65) ++ 95 :: (List.range 26).map (· + 97) ∧
+    digitChars = (List.range 10).map (· + 48) ∧ blankChars = [9, 10, 13, 32] := by decide
+
+/-- identifier characters (letters, digits, `.` and every quote character) are ASCII: `bytes.ToLower` on an
+identifier is the ASCII map the model uses. -/
+theorem fact_tok_ident_ascii :
+    ∀ n ∈ letterChars ++ digitChars ++ [46] ++ mysqlIdentQuotes ++ mysqlStrQuotes ++ ansiIdentQuotes ++ ansiStrQuotes ++
+      pgIdentQuotes ++ pgStrQuotes, n < 128 := by decide
+
+/-- the quote handlers: MySQL `` ` `` identifiers and `'` `"` strings; ANSI mode `` ` `` `"` identifiers and `'` strings;
+PostgreSQL `"` identifiers and `'` strings. `byte(eofChar) = 0` is no quote (the end of input never looks like one),
+and every string quote has a `stringTokenType` entry. -/
+theorem fact_tok_quotes :
+    (mysqlIdentQuotes, mysqlStrQuotes, mysqlIdentQuote) = ([96], [34, 39], 96) ∧
+    (ansiIdentQuotes, ansiStrQuotes, ansiIdentQuote) = ([34, 96], [39], 34) ∧
+    (pgIdentQuotes, pgStrQuotes, pgIdentQuote) = ([34], [39], 34) ∧
+    stringTokenType = [(39, "SINGLE_QUOTE_STRING"), (34, "DOUBLE_QUOTE_STRING"), (96, "BACK_QUOTE_STRING")] ∧
+    mysqlQuoteHandlerShape = "if dialect.ansiMode { return NewANSIQuoteHandler() }; return NewDefaultQuoteHandler()" ∧
+    pgQuoteHandlerShape = "return NewQuoteHandler()" := by decide
+
+/-- every token name the scanners spell out and every `stringTokenType` value is a constant of `sql.go` (for the values
+of the keyword map the extractor checks the same while reading the map, and the driver prints `?` for an unknown
+name); the ids are strictly increasing in source order (hence pairwise different) and above 255, so a named token
+is never 0 (end of input) nor a character token. -/
+theorem fact_tok_token_ids :
+    (∀ n ∈ modelTokenNames ++ stringTokenType.map (·.2), (tokenIds.lookup n).isSome = true) ∧
+    strictlyIncreasing (tokenIds.map (·.2)) = true ∧ (∀ p ∈ tokenIds, 255 < p.2) := by
+  refine ⟨by decide +kernel, by decide +kernel, by decide +kernel⟩
+
+/-- the shape of `Scan` the model follows: the order of the outer cases, the case lists of the inner `switch ch`, the
+three letter-prefixed literals, the bases handed to `scanMantissa`, the comment prefixes, `isCarat`, `consumeNext`'s
+panic, and how `scanMySQLSpecificComment` builds the nested tokenizer (default dialect) and makes `Scan` start over:
+`Scan` is a LOOP around one round (`scanToken`) and the start-over marker `rescan` is no token type – the stack a
+`Scan` needs does not grow with the number of `/*! … */` comments (it used to: one recursive call per comment). -/
+theorem fact_tok_scan_shape :
+    scanOuterCases = ["isLetter(ch)", "isDigit(ch)", "ch == ':'", "ch == ';' && tkn.multi", "default"] ∧
+    scanCaseChars = [[256], [61, 44, 59, 40, 41, 43, 42, 37, 94, 126], [38], [124], [63], [46], [47], [35], [45], [60], [62], [33], [36], []] ∧
+    simpleTokens = [61, 44, 59, 40, 41, 43, 42, 37, 94, 126] ∧
+    letterPrefixes = [([88, 120], 39, "tkn.scanHex()"), ([66, 98], 39, "tkn.scanBitLiteral()"), ([69, 101], 39, "tkn.scanString('\\'', PG_ESCAPE_STRING)")] ∧
+    mantissaBases = [("scanHex", [16]), ("scanBitLiteral", [2]), ("scanNumber", [10, 16, 10, 10, 10])] ∧
+    lineCommentPrefixes = ["//", "#", "--"] ∧
+    blockCommentPrefixes = [("scanCommentType2", "/*"), ("scanMySQLSpecificComment", "/*!")] ∧
+    caratShape = "ch == '.' || quoteHandler.IsIdentifierQuote(byte(ch)) || quoteHandler.IsStringLiteralQuote(byte(ch))" ∧
+    consumeNextPanicsAtEof = true ∧
+    specialCommentTail = "_, sql := ExtractMysqlComment(buffer.String()); tkn.specialComment = NewStringTokenizer(sql); return rescan, nil" ∧
+    scanLoopShape = "for { if typ, val := tkn.scanToken(); typ != rescan { return typ, val } }" ∧ rescanIsNegative = true := by
+  decide
+
+/-- `ExtractMysqlComment`: `sql[3 : len(sql)-2]`, version = at most 5 digits (the 6th rune ends it), and the comment that
+holds only version digits is handled (it used to slice with -1). -/
+theorem fact_tok_version_comment :
+    versionCommentLo = 3 ∧ versionCommentHi = 2 ∧ versionDigitLimit = 6 ∧ versionOnlyHandled = true := by decide
+
+/-- Latin-1 part of `unicode.IsSpace` / `unicode.IsDigit` as `ExtractMysqlComment` sees it -/
+theorem fact_tok_unicode : latin1Spaces = [9, 10, 11, 12, 13, 32, 133, 160] ∧ latin1Digits = (List.range 10).map (· + 48) := by decide
+
+/-! ### no panic -/
+
+/-- **One `Scan` never panics**, in any state of the tokenizer (any buffer, position, dialect, flags, nested
+tokenizers): `consumeNext`'s `panic("unexpected EOF")` and the three slice expressions of `ExtractMysqlComment` are
+unreachable. -/
+theorem tokenizer_scan_no_panic (dd : Dialect) (l : List Frame) : ∃ t l', scan dd l = .ok (t, l') := by
+  obtain ⟨t, l', h, _⟩ := scan_total dd l
+  exact ⟨t, l', h⟩
+
+/-- **`Lex` (the loop the generated parser calls; skips comments) never panics.** -/
+theorem tokenizer_lex_no_panic (dd : Dialect) (ac : Bool) (l : List Frame) : ∃ t l', lex dd ac l = .ok (t, l') := by
+  obtain ⟨t, l', h, _⟩ := lex_total dd ac l
+  exact ⟨t, l', h⟩
+
+/-- **Tokenising any byte string in any dialect never panics**: the whole loop `for { tok := Scan(); if tok == 0 { break } }`
+returns a token stream. -/
+theorem tokenizer_no_panic (d dd : Dialect) (input : Bytes) : ∃ ts, tokenize d dd input = .ok ts := by
+  obtain ⟨ts, h, _⟩ := tokenizeFrom_spec dd input.length (initial d input) (inv_initial d input false) (by simp [initial])
+  exact ⟨ts, h⟩
+
+/-! ### progress and termination -/
+
+/-- **Every `Scan` that returns anything but 0 has consumed at least one byte** (of the tokenizer or of its nested
+comment tokenizer): the bytes left strictly decrease. This is what makes `lex` and `tokenize` total functions – their
+definitions carry no fuel – and what rules out an endless `Lex` loop in the parser. -/
+theorem tokenizer_progress (dd : Dialect) (l l' : List Frame) (t : Token)
+    (h : scan dd l = .ok (t, l')) (hne : t.typ ≠ .eof) : mu l' < mu l := scan_progress h hne
+
+/-- … and a `Scan` never gives bytes back. -/
+theorem tokenizer_monotone (dd : Dialect) (l l' : List Frame) (t : Token) (h : scan dd l = .ok (t, l')) : mu l' ≤ mu l := by
+  obtain ⟨t1, l1, e, g, _⟩ := scan_total dd l
+  rw [h] at e; injection e with e; injection e with ea eb; subst ea; subst eb; exact g
+
+/-- the same for `Lex`: each call that does not report the end consumes input. -/
+theorem tokenizer_lex_progress (dd : Dialect) (ac : Bool) (l l' : List Frame) (t : Token)
+    (h : lex dd ac l = .ok (t, l')) (hne : t.typ ≠ .eof) : mu l' < mu l := by
+  obtain ⟨t1, l1, e, _, g⟩ := lex_total dd ac l
+  rw [h] at e; injection e with e; injection e with ea eb; subst ea; subst eb; exact g hne
+
+/-- **The parser's token loop ends**: `for { tok := Lex(); if tok == 0 { break } }` – with comments skipped or kept, and
+whenever the grammar sets `ForceEOF` (after `k` tokens, or never) – returns a finite stream without panic from every
+state. (`lexFrom` is defined by recursion on the bytes left; there is no step limit in it.) -/
+theorem tokenizer_parser_loop_total (dd : Dialect) (ac : Bool) (force : Option Nat) (l : List Frame) :
+    ∃ ts, lexFrom dd ac force l = .ok ts := lexFrom_total dd ac force l
+
+/-- **At most `|input| + 1` tokens** (the final 0 included), for every input and dialect. -/
+theorem tokenizer_token_count (d dd : Dialect) (input : Bytes) (ts : List (Token × Nat))
+    (h : tokenize d dd input = .ok ts) : ts.length ≤ input.length + 1 := by
+  obtain ⟨ts', e, g, _⟩ := tokenizeFrom_spec dd input.length (initial d input) (inv_initial d input false) (by simp [initial])
+  unfold tokenize at h
+  rw [h] at e; injection e with e; subst e
+  rw [mu_initial] at g; exact g
+
+/-! ### bounded allocation -/
+
+/-- **The payloads of all tokens together are no longer than the input + 1**, apart from the `?` placeholders: a `?`
+is returned as `:v<n>` (`n` = its ordinal), 1 + (digits of `n`) bytes more than it consumed, and `n ≤ |input|`.
+(`extraSum B ts` = (1 + decimal digits of `B`) for every `VALUE_ARG` token of `ts`.) Comment text, string values,
+identifiers, numbers are each no longer than the bytes consumed for them; the inner text of a `/*! … */` comment is at
+least 5 bytes shorter than the comment. -/
+theorem tokenizer_alloc_bounded (d dd : Dialect) (input : Bytes) (ts : List (Token × Nat))
+    (h : tokenize d dd input = .ok ts) : payloadSum ts ≤ input.length + 1 + extraSum input.length ts := by
+  obtain ⟨ts', e, _, g⟩ := tokenizeFrom_spec dd input.length (initial d input) (inv_initial d input false) (by simp [initial])
+  unfold tokenize at h
+  rw [h] at e; injection e with e; subst e
+  rw [mu_initial] at g; exact g
+
+/-- closed form: at most `(|input| + 1) · (2 + digits(|input|))` payload bytes – linear in the input up to the
+logarithmic placeholder numbering. -/
+theorem tokenizer_alloc_bounded_closed (d dd : Dialect) (input : Bytes) (ts : List (Token × Nat))
+    (h : tokenize d dd input = .ok ts) :
+    payloadSum ts ≤ (input.length + 1) * (2 + (decimal input.length).length) := by
+  have h1 := tokenizer_alloc_bounded d dd input ts h
+  have h2 := tokenizer_token_count d dd input ts h
+  have h3 : ∀ l : List (Token × Nat), extraSum input.length l ≤ l.length * (1 + (decimal input.length).length) := by
+    intro l
+    induction l with
+    | nil => simp [extraSum]
+    | cons a r ih =>
+      have hq : qExtra input.length a.1 ≤ 1 + (decimal input.length).length := by unfold qExtra; split <;> omega
+      simp only [extraSum, List.map_cons, List.sum_cons, List.length_cons, Nat.succ_mul] at ih ⊢
+      omega
+  have h4 := h3 ts
+  have h5 : ts.length * (1 + (decimal input.length).length) ≤ (input.length + 1) * (1 + (decimal input.length).length) :=
+    Nat.mul_le_mul_right _ h2
+  have h6 : (input.length + 1) * (2 + (decimal input.length).length) =
+      (input.length + 1) + (input.length + 1) * (1 + (decimal input.length).length) := by
+    rw [show 2 + (decimal input.length).length = 1 + (1 + (decimal input.length).length) by omega, Nat.mul_add, Nat.mul_one]
+  omega
+
+/-! ### link to the literal codec of C13 -/
+
+/-- **String tokens round-trip.** The text the printer writes for a string value `b` (C13: `encodeBytesSQL b`, i.e.
+`'…'` with backslash escapes) is read by `Scan`, in all three dialect variants and whatever follows (anything but
+another quote), as ONE token `SINGLE_QUOTE_STRING` whose payload is exactly `b`, and `Scan` stops exactly behind the
+literal. Together with C13's `literal_roundtrip` this ties the tokenizer model to the printer model. -/
+theorem string_token_roundtrip (d : Dialect) (hd : d = .mysql ∨ d = .ansi ∨ d = .postgresql) (multi : Bool) (pv : Nat)
+    (b rest : Bytes) (h : rest.head? ≠ some Sql.Literal.quote) :
+    scanSuffix d multi pv (Sql.Literal.encodeBytesSQL b ++ rest) =
+      .ok (.tok ⟨.named "SINGLE_QUOTE_STRING", b⟩ rest pv) := by
+  have hlit := scanStr_of_literal _ _ _ _ _ (C13.literal_roundtrip b rest h)
+  have hshape : Sql.Literal.encodeBytesSQL b ++ rest = 39 :: ((Sql.Literal.encodeBytesSQL b).tail ++ rest) := by
+    simp [Sql.Literal.encodeBytesSQL, Sql.Literal.quote]
+  rw [hshape]
+  generalize (Sql.Literal.encodeBytesSQL b).tail ++ rest = t at hlit
+  have hq : Sql.Literal.quote = 39 := rfl
+  rw [hq] at hlit
+  have hsb : skipBlank (39 :: t) = 39 :: t := by
+    have : isBlank 39 = false := by decide
+    simp [skipBlank, this]
+  have hop : scanOperator 39 t = none := by simp [scanOperator]
+  have hiq : isIdentQuote d 39 = false := by rcases hd with rfl | rfl | rfl <;> decide
+  have hsq : isStrQuote d 39 = true := by rcases hd with rfl | rfl | rfl <;> decide
+  have e1 : isLetter 39 = false := by decide
+  have e2 : isDigit 39 = false := by decide
+  have e3 : 39 ∉ simpleTokens := by decide
+  have e4 : stringTokenTypeOf 39 = .named "SINGLE_QUOTE_STRING" := by decide
+  unfold scanSuffix
+  rw [hsb]
+  simp [scanDispatch, e1, e2, e3, hop, hiq, hsq, scanString, hlit, e4, liftTok]
+
+/-! ### non-vacuity: concrete token streams computed by the definitions the theorems are about -/
+
+/-- `'a\'b''c' x` → one string token `a'b'c` (escape and doubled quote), in PostgreSQL -/
+example : scanSuffix .postgresql false 0 (strBytes "'a\\'b''c' x") =
+    .ok (.tok ⟨.named "SINGLE_QUOTE_STRING", strBytes "a'b'c"⟩ (strBytes " x") 0) := by decide +kernel
+
+/-- `? ` → the first placeholder `:v1`; `1e+` followed by a letter → `LEX_ERROR`; `$` alone → `DOLLAR_SIGN` -/
+example : scanSuffix .mysql false 0 (strBytes "? ") = .ok (.tok ⟨.named "VALUE_ARG", strBytes ":v1"⟩ (strBytes " ") 1) ∧
+    scanSuffix .mysql false 0 (strBytes "1e+x") = .ok (.tok ⟨.named "LEX_ERROR", strBytes "1e+"⟩ (strBytes "x") 0) ∧
+    scanSuffix .postgresql false 0 (strBytes "$") = .ok (.tok ⟨.named "DOLLAR_SIGN", strBytes "$"⟩ [] 0) := by decide +kernel
+
+/-- `/*!50000 select*/ x` hands the nested tokenizer the text `select`; `/*!*/` (the former panic) an empty text -/
+example : scanSuffix .mysql false 0 (strBytes "/*!50000 select*/ x") = .ok (.special (strBytes "select") (strBytes " x")) ∧
+    scanSuffix .mysql false 0 (strBytes "/*!*/") = .ok (.special [] []) := by decide +kernel
+
+/-- an unterminated string, comment and quoted identifier are `LEX_ERROR` tokens that consume the rest – never a panic -/
+example : scanSuffix .mysql false 0 (strBytes "'ab") = .ok (.tok ⟨.named "LEX_ERROR", strBytes "ab"⟩ [] 0) ∧
+    scanSuffix .mysql false 0 (strBytes "/* ab") = .ok (.tok ⟨.named "LEX_ERROR", strBytes "/* ab"⟩ [] 0) ∧
+    scanSuffix .mysql false 0 (strBytes "`ab") = .ok (.tok ⟨.named "LEX_ERROR", strBytes "ab"⟩ [] 0) := by decide +kernel
+
+/-- the theorems applied to a concrete statement: 41 bytes give at most 42 tokens -/
+example : ∃ ts, tokenize .mysql .mysql (strBytes "select `a`, 1.5e3 from t where b = ? -- c") = .ok ts ∧ ts.length ≤ 42 := by
+  obtain ⟨ts, h⟩ := tokenizer_no_panic .mysql .mysql (strBytes "select `a`, 1.5e3 from t where b = ? -- c")
+  exact ⟨ts, h, tokenizer_token_count _ _ _ ts h⟩
+
+end Tokenizer
 
 end AcraModel.Props.C14
